@@ -27,6 +27,10 @@ TInv == /\ IsEv("inv")
         /\ LET t == Ev.t  k == Ev.k  op == Ev.op IN
            /\ pend[t].op = "idle"
            /\ IF op = "Wait" THEN UNCHANGED <<writer, readers>> /\ pend' = [pend EXCEPT ![t] = [op |-> "Wait", k |-> 0, cont |-> FALSE]]
+              ELSE IF op \in {"ClearKey", "WClearKey"} THEN
+                 \* "(ClearKey is covered only when no goroutine holds or awaits the key.)": it must leave the key usable as a free key
+                 /\ writer[k] = 0 /\ readers[k] = {} /\ ~Overlap(t, k)
+                 /\ UNCHANGED <<writer, readers>> /\ pend' = [pend EXCEPT ![t] = [op |-> op, k |-> 0, cont |-> FALSE]]
               ELSE
               /\ writer' = IF op \in {"Unlock", "WUnlock", "UnlockIf", "WUnlockIf"} /\ writer[k] = t THEN [writer EXCEPT ![k] = 0] ELSE writer
               /\ readers' = IF op \in {"RUnlock", "RUnlockIf"} THEN [readers EXCEPT ![k] = @ \ {t}] ELSE readers
